@@ -889,3 +889,31 @@ def np_isinf(I, args, kwargs):
     if isinstance(v, SArr):
         return ops.map_arr(v, lambda x: False, dtype="bool", kind="ndarray")
     return False
+
+
+@lib("numpy.roll")
+def np_roll(I, args, kwargs):
+    a = to_arr(I, args[0])
+    shift = arg(args, kwargs, 1, "shift")
+    n = a.len
+    USED.add("np.roll(a, s)[i] == a[(i - s) mod len(a)];  np.resize(a, m)[i] == a[i mod len(a)]")
+    return SArr((n,), lambda i: a.fn(pure_arith(I, "Mod", pure_arith(I, "Sub", i, shift), n)), a.dtype, "ndarray")
+
+
+@lib("numpy.resize")
+def np_resize(I, args, kwargs):
+    a = to_arr(I, args[0])
+    m = args[1]
+    if isinstance(m, SList):
+        m = m.items[0]
+    n = a.len
+    return SArr((m,), lambda i: a.fn(pure_arith(I, "Mod", i, n)), a.dtype, "ndarray")
+
+
+@lib("numpy.tile")
+def np_tile(I, args, kwargs):
+    a = to_arr(I, args[0])
+    reps = arg(args, kwargs, 1, "reps")
+    n = a.len
+    USED.add("np.tile(a, r)[i] == a[i mod len(a)], length r*len(a)")
+    return SArr((ops.scalar_arith(I.ctx, "Mult", n, reps),), lambda i: a.fn(pure_arith(I, "Mod", i, n)), a.dtype, "ndarray")
